@@ -1,6 +1,6 @@
 #!/bin/sh
-# usage: tools/harvest.sh <id>   copies an agent's seeded change from /tmp/wt/<id> to /verif/seeded/<id>-agent and removes the worktree
-id=$1; d=/verif/seeded/$id-agent; mkdir -p $d
+# usage: tools/harvest.sh <id> [suffix]   copies an agent's seeded change from /tmp/wt/<id> to /verif/seeded/<id>-agent and removes the worktree
+id=$1; sfx=${2:-agent}; d=/verif/seeded/$id-$sfx; mkdir -p $d
 cd /tmp/wt/$id || exit 2
 git diff -- asn1tools > $d/patch.diff
 cp _seed/demo.py _seed/meta.json $d/ 2>/dev/null
